@@ -475,15 +475,27 @@ class Duration(timedelta):
 
         return NotImplemented
 
+    def __reduce__(self) -> tuple[type[Self], tuple[int, ...]]:
+        # The native timedelta reduction would fold years and months into days
+        return self.__class__, (
+            self._days,
+            self._seconds,
+            self._microseconds,
+            0,
+            0,
+            0,
+            0,
+            self._years,
+            self._months,
+        )
+
     def __deepcopy__(self, _: dict[int, Self]) -> Self:
         return self.__class__(
-            days=self.remaining_days,
-            seconds=self.remaining_seconds,
-            microseconds=self.microseconds,
-            minutes=self.minutes,
-            hours=self.hours,
-            years=self.years,
-            months=self.months,
+            days=self._days,
+            seconds=self._seconds,
+            microseconds=self._microseconds,
+            years=self._years,
+            months=self._months,
         )
 
 
